@@ -155,6 +155,11 @@ public:
     {
     }
 
+    bool IsCounting() const override
+    {
+        return true;
+    }
+
     const sizeInfo_t& getSizeInfo() const
     {
         return info;
@@ -775,16 +780,22 @@ void ScriptEmitter::EmitCatch(sval_t val, const opval_t* try_begin_code_pos, sou
 
     ClearPrevOpcode();
 
-    ScriptCountManager countManager;
-    ScriptEmitter emitter(countManager, stateScript, info);
-    emitter.canBreak = canBreak;
-    emitter.canContinue = canContinue;
-    emitter.EmitRoot(val);
+    size_t numCatchLabels = 0;
+    if (!manager.IsCounting())
+    {
+        // size the state script of the block; a measuring pass does not need it
+        // (measuring again at every nesting level doubled the work per level)
+        ScriptCountManager countManager;
+        ScriptEmitter emitter(countManager, stateScript, info);
+        emitter.canBreak = canBreak;
+        emitter.canContinue = canContinue;
+        emitter.EmitRoot(val);
 
-    const sizeInfo_t& info = countManager.getSizeInfo();
+        numCatchLabels = countManager.getSizeInfo().numCatchLabels;
+    }
 
     StateScript* const oldStateScript = stateScript;
-    stateScript = manager.CreateCatchStateScript(try_begin_code_pos, code_pos(), info.numCatchLabels);
+    stateScript = manager.CreateCatchStateScript(try_begin_code_pos, code_pos(), numCatchLabels);
 
     EmitValue(val);
 
@@ -1610,18 +1621,24 @@ void ScriptEmitter::EmitSwitch(sval_t val, sourceLocation_t sourceLoc)
 
     ++switchDepth;
 
-    ScriptCountManager countManager;
-    ScriptEmitter emitter(countManager, stateScript, info);
-    emitter.canBreak = true;
-    emitter.canContinue = canContinue;
-    emitter.switchDepth = 1;
-    emitter.EmitRoot(val);
+    size_t numCaseLabels = 0;
+    if (!manager.IsCounting())
+    {
+        // count the case labels to reserve; a measuring pass does not need them
+        // (measuring again at every nesting level doubled the work per level)
+        ScriptCountManager countManager;
+        ScriptEmitter emitter(countManager, stateScript, info);
+        emitter.canBreak = true;
+        emitter.canContinue = canContinue;
+        emitter.switchDepth = 1;
+        emitter.EmitRoot(val);
 
-    const sizeInfo_t& info = countManager.getSizeInfo();
+        numCaseLabels = countManager.getSizeInfo().numCaseLabels;
+    }
 
     oldStateScript = stateScript;
     // reserve number of case
-    stateScript = manager.CreateSwitchStateScript(info.numCaseLabels);
+    stateScript = manager.CreateSwitchStateScript(numCaseLabels);
 
     EmitOpcode(OP_SWITCH, sourceLoc);
 
